@@ -284,7 +284,10 @@ func (c *Conn) readCommand(dec *imapwire.Decoder) error {
 		}
 	}
 
-	dec.DiscardLine()
+	if !dec.DiscardLine() {
+		// The command hasn't been parsed up to its literal
+		c.literalRefused = true
+	}
 
 	var (
 		resp    *imap.StatusResponse
